@@ -147,10 +147,12 @@ def make_object(case, **override):
 def fit_object(obj, case, sample, X=None, y=None):
     """Calls fit with the arguments the class expects; returns Res."""
     cls = case["config"]["cls"]
-    X = sample.X if X is None else X
-    y = sample.y if y is None else y
+    # the object always gets private copies: with copy=False it may modify its inputs in place, and
+    # the oracles need the pristine sample (side effects with copy=True are C07's subject)
+    X = (sample.X if X is None else X).copy()
+    y = (sample.y if y is None else y).copy()
     if cls in CARVERS and sample.X_dev is not None:
-        return observe(obj.fit, X, y, X_dev=sample.X_dev, y_dev=sample.y_dev)
+        return observe(obj.fit, X, y, X_dev=sample.X_dev.copy(), y_dev=sample.y_dev.copy())
     return observe(obj.fit, X, y)
 
 
